@@ -425,18 +425,69 @@ def v_domain(p):
                   f'({len(calls)} call site(s))')
 
 
+def v_server_normalisation(p):
+  """Every "sum over clients / total count" in the round functions is the zero-safe tree_inverse_weight: with no real
+  example the full-batch gradient and the mean update are 0, not NaN."""
+  import ast
+  from ..extract import parse
+  TARGETS = ('server_grads', 'mean_delta_params')
+  gsum, n = z3.Real('sum_at_coordinate'), z3.Real('total_count')
+  found = 0
+  for alg in ('fed_avg', 'fed_prox', 'mime', 'mime_lite', 'agnostic_fed_avg', 'apfl'):
+    rel = f'fedjax/algorithms/{alg}.py'
+    _, tree = parse(rel)
+    for fn in ast.walk(tree):
+      if not (isinstance(fn, ast.FunctionDef) and fn.name == 'apply'):
+        continue
+      for st in ast.walk(fn):
+        if not (isinstance(st, ast.Assign) and len(st.targets) == 1 and isinstance(st.targets[0], ast.Name) and
+                st.targets[0].id in TARGETS):
+          continue
+        names = sorted({x.id for x in ast.walk(st.value) if isinstance(x, ast.Name)} - {'tree_util', 'jax', 'jnp', 'util'})
+        sums = [x for x in names if 'sum' in x and not x.startswith('num') and x != 'weight_sum']
+        nums = [x for x in names if x.startswith('num') or x == 'weight_sum']
+        if len(sums) != 1 or len(nums) != 1:
+          p.oblige(f'norm.shape:{alg}.{st.targets[0].id}', [], z3.BoolVal(False), kind='post', fn=f'{alg}.apply',
+                   detail=f'{ast.unparse(st)[:120]}: expected one summed tree and one count')
+          continue
+        found += 1
+        g = real_globals()
+        g['tree_util'] = SrcModule(TU)
+        g['util'] = SrcModule(U)
+        eng = Engine(g)
+        eng.sources = [rel]
+
+        def body(ctx, st=st, sums=sums, nums=nums, alg=alg):
+          ctx.model_vars.update(total_count=n, sum_at_coordinate=gsum)
+          ctx.assume(n >= 0)
+          ctx.push_frame(())
+          ctx.store(sums[0], new_tree(ctx, gsum, 'param'))
+          ctx.store(nums[0], n)
+          r = eng.eval(ctx, st.value)
+          ctx.oblige('norm.safe', tree_val(ctx, r) == z3.If(n > 0, gsum / n, 0),
+                     detail=f'{alg}.apply: `{ast.unparse(st)[:110]}` is sum / count for count > 0 and 0 (not 0/0 = NaN) for a round '
+                            'without real examples')
+        p.extract(rel, fn.name) if False else None
+        eng.explore(p.sink, f'{alg}.apply[{st.targets[0].id}]', body)
+  p.oblige('norm.sites', [], z3.BoolVal(found >= 7), kind='post', fn='algorithms',
+           detail=f'{found} normalisation sites (server gradient / mean update) found in the round functions')
+
+
 def build(p):
   D = 'native/C06.py'
   for fn in ('grad', '_evaluate_average_loss_step', '_finalize_average_loss', 'evaluate_average_loss',
              'mime.', 'agnostic_fed_avg.'):
     p.native(fn, D, 'masked')
+  for alg_ in ('fed_avg.apply', 'fed_prox.apply', 'mime.apply', 'mime_lite.apply', 'agnostic_fed_avg.apply', 'apfl.apply', 'norm.'):
+    p.native(alg_, D, 'empty_round')
   v_scalar_loss(p)
   v_average_loss(p)
   v_mime_grads(p)
   v_domain(p)
+  v_server_normalisation(p)
   p.trust('rows model: a vector over the batch rows is its entry at an arbitrary row; jnp.sum / vdot / mean / segment_sum '
           'are SUMROWS of the pointwise expression; x * mask = mask ? x : 0 (mask is 0/1)',
           'per-example loss is an uninterpreted function of (params, batch, key, row): the property hypothesis',
           'jax.grad is extensional and linear; jax.random.split is deterministic; safe_div contract from C05 '
           '(float32 NaN-freedom there)')
-  p.not_covered.append('mime / mime_lite server-side division sum(grad*num)/sum(num): dataflow is part of C12/C10')
+  p.not_covered.append('dataflow of the server-side sums in mime / mime_lite (which clients, which weights) is part of C12/C10; their zero-safe normalisation is norm.safe here')
